@@ -609,6 +609,39 @@ class Node:
         )
 
 
+class MemoryFile:
+    """
+    Opened file of :py:class:`aioftp.MemoryPathIO`: own position over the
+    buffer of the node, so files opened at the same time do not move each
+    other.
+    """
+
+    def __init__(self, buffer, *, append=False):
+        self.buffer = buffer
+        self.append = append
+        self.position = buffer.seek(0, io.SEEK_END if append else io.SEEK_SET)
+
+    def seek(self, offset, whence=io.SEEK_SET):
+        self.buffer.seek(self.position)
+        self.position = self.buffer.seek(offset, whence)
+        return self.position
+
+    def read(self, *args, **kwargs):
+        self.buffer.seek(self.position)
+        data = self.buffer.read(*args, **kwargs)
+        self.position = self.buffer.tell()
+        return data
+
+    def write(self, data):
+        if self.append:
+            self.buffer.seek(0, io.SEEK_END)
+        else:
+            self.buffer.seek(self.position)
+        count = self.buffer.write(data)
+        self.position = self.buffer.tell()
+        return count
+
+
 class MemoryPathIO(AbstractPathIO):
     """
     Non-blocking path io. Based on in-memory tree. It is just proof of concept
@@ -782,8 +815,7 @@ class MemoryPathIO(AbstractPathIO):
             node = self.get_node(path)
             if node is None:
                 raise FileNotFoundError
-            file_like = node.content
-            file_like.seek(0, io.SEEK_SET)
+            file_like = MemoryFile(node.content)
         elif mode in ("wb", "ab", "r+b"):
             node = self.get_node(path)
             if node is None:
@@ -792,18 +824,13 @@ class MemoryPathIO(AbstractPathIO):
                     raise FileNotFoundError
                 new_node = Node("file", path.name, content=io.BytesIO())
                 parent.content.append(new_node)
-                file_like = new_node.content
+                file_like = MemoryFile(new_node.content, append=mode == "ab")
             elif node.type != "file":
                 raise IsADirectoryError
             else:
                 if mode == "wb":
-                    file_like = node.content = io.BytesIO()
-                elif mode == "ab":
-                    file_like = node.content
-                    file_like.seek(0, io.SEEK_END)
-                elif mode == "r+b":
-                    file_like = node.content
-                    file_like.seek(0, io.SEEK_SET)
+                    node.content = io.BytesIO()
+                file_like = MemoryFile(node.content, append=mode == "ab")
         else:
             raise ValueError(f"invalid mode: {mode}")
         return file_like
